@@ -11,6 +11,7 @@ import GoDcp.Driver.Membership
 import GoDcp.Driver.MinSeqNo
 import GoDcp.Driver.SrcFacts
 import GoDcp.Driver.MembershipPause
+import GoDcp.Driver.MembershipJoin
 import GoDcp.Driver.HaMembership
 import GoDcp.Driver.RmE2E
 import GoDcp.Driver.ReadOnly
@@ -18,6 +19,6 @@ import GoDcp.Driver.ReadOnly
 namespace GoDcp.Driver
 
 def allHandlers : List (String × (List String → Option String → Option Out)) :=
-  pureHandlers ++ versionHandlers ++ rollbackHandlers ++ healthHandlers ++ keysHandlers ++ asyncOpHandlers ++ configHandlers ++ lifeHandlers ++ wireHandlers ++ membershipHandlers ++ minSeqNoHandlers ++ srcFactHandlers ++ membershipPauseHandlers ++ haMembershipHandlers ++ rmE2EHandlers ++ readOnlyHandlers
+  pureHandlers ++ versionHandlers ++ rollbackHandlers ++ healthHandlers ++ keysHandlers ++ asyncOpHandlers ++ configHandlers ++ lifeHandlers ++ wireHandlers ++ membershipHandlers ++ minSeqNoHandlers ++ srcFactHandlers ++ membershipPauseHandlers ++ membershipJoinHandlers ++ haMembershipHandlers ++ rmE2EHandlers ++ readOnlyHandlers
 
 end GoDcp.Driver
